@@ -16,7 +16,7 @@ import (
 type Value interface{}
 
 type SliceV struct{ Base, Off, Len, Cap *Term } // element i at ElemAddr(Base, Off+i)
-type IfaceV struct{ Tag, Data *Term }            // Tag BV32 (0 = nil interface); Data Addr
+type IfaceV struct{ Tag, Data *Term }           // Tag BV32 (0 = nil interface); Data Addr
 type TupleV struct{ Elems []Value }
 type FuncV struct {
 	Fn       interface{} // *ssa.Function (kept untyped here)
@@ -207,7 +207,7 @@ type State struct {
 	// ghost: keys stored in maps whose region is concrete (for ground table reasoning)
 	mapKeys map[int64][]*Term
 	// initial memory (for old())
-	init *Mem
+	init            *Mem
 	subst           map[*Term]*Term
 	frameCheck      func(ex *Exec, st *State, in ssa.Instruction, a *Term)
 	frameCheckRange func(ex *Exec, st *State, in ssa.Instruction, dst *SliceV, n *Term)
@@ -216,12 +216,20 @@ type State struct {
 	opaqueMaps      map[int64]bool  // maps whose key set is not completely known
 	hashSeq         map[int64][]Seg // ghost message of hash objects (by region id)
 	regionSeq       map[int64][]Seg // content of locally built byte regions as segments
+	// region id ranges (lo, hi] whose memory was NOT allocated (zeroed) by this execution: results
+	// allocated by callees applied by contract, allocations of earlier loop iterations. Their
+	// initial content is unknown, so the "fresh memory reads as zero" axiom excludes them.
+	foreign [][2]int64
+	regionLen map[int64]*Term  // length of the tracked content of regionSeq regions
+	lenAlias  map[*Term]*Term // names introduced for make() lengths -> the length expression
+	havocUB int64 // while a callee's frame is havocked: upper bound for the regions of unknown pointers
 }
 
 func (st *State) Clone() *State {
 	n := *st
 	n.mem = st.mem.Clone()
 	n.assumes = append([]*Term{}, st.assumes...)
+	n.foreign = append([][2]int64{}, st.foreign...)
 	nr := *st.nextRg
 	n.nextRg = &nr
 	n.mapKeys = map[int64][]*Term{}
@@ -250,6 +258,11 @@ func (st *State) FreshRegion() *Term {
 }
 
 func (st *State) loadScalar(s Sort, a *Term) *Term {
+	if s == BV(8) && len(st.regionSeq) > 0 {
+		if v := st.loadFromSegs(a); v != nil {
+			return v
+		}
+	}
 	arr := st.mem.arr(s, st.memGen)
 	v := Select(arr, a)
 	if s == SAddr {
@@ -272,9 +285,11 @@ func (st *State) storeScalar(s Sort, a, v *Term) {
 		if r := Rg(a); r.IsConst() {
 			if _, tracked := st.regionSeq[r.Val.Int64()]; tracked {
 				st.setRegionSeq(r.Val.Int64(), nil)
+				st.setRegionLen(r.Val.Int64(), nil)
 			}
 		} else {
 			st.regionSeq = nil
+			st.regionLen = nil
 		}
 	}
 	arr := st.mem.arr(s, st.memGen)
@@ -565,4 +580,59 @@ func forEachLeaf(t types.Type, a *Term, f func(s Sort, a *Term)) {
 	case KFunc:
 		f(BV(64), a)
 	}
+}
+
+// loadFromSegs: a byte read at a constant index of a locally assembled buffer whose content is
+// tracked as segments: if the index falls on a literal byte reached through constant positions,
+// the byte is known without going through the (quantified) copy axioms.
+func (st *State) loadFromSegs(a *Term) *Term {
+	if a.Op != "mkaddr" {
+		return nil
+	}
+	rg := Subst(a.Args[0], st.substMap())
+	if !rg.IsConst() || !rg.Val.IsInt64() {
+		return nil
+	}
+	segs, ok := st.regionSeq[rg.Val.Int64()]
+	if !ok {
+		return nil
+	}
+	pa := a.Args[1]
+	if pa.Op != "elem" || pa.Args[0] != PNil {
+		return nil
+	}
+	idx := Subst(pa.Args[1], st.substMap())
+	if !idx.IsConst() {
+		return nil
+	}
+	want := idx.Val.Uint64()
+	pos := uint64(0)
+	for _, sg := range segs {
+		switch {
+		case sg.Lit != nil:
+			if pos == want {
+				return sg.Lit
+			}
+			pos++
+		case sg.Zero != nil:
+			n := Subst(sg.Zero, st.substMap())
+			if !n.IsConst() {
+				return nil
+			}
+			if want < pos+n.Val.Uint64() {
+				return BVc(0, 8)
+			}
+			pos += n.Val.Uint64()
+		default:
+			n := Subst(sg.Len, st.substMap())
+			if !n.IsConst() {
+				return nil
+			}
+			if want < pos+n.Val.Uint64() {
+				return Select(sg.Arr, ElemAddr(sg.Base, BVBin("bvadd", sg.Off, BVc(int64(want-pos), 64))))
+			}
+			pos += n.Val.Uint64()
+		}
+	}
+	return nil
 }
